@@ -61,6 +61,10 @@ def mk(subset, ending, meddle=False):
             opts += ['--profile-directory', 'profdir']
             world['mkdirs'] = ['profdir']
         tests.append({'layer': 0, 'meddle': acts})
+    if meddle and 'buffer' in subset and ending in ('normal', 'failing', 'stop'):
+        # test code that puts a saved stream back after the result event (redirect_stdout around a failing subtest), as the
+        # last thing the run does
+        world['redirect_last'] = True
     if ending == 'failing':
         tests += [{'layer': 0, 'body': 'fail'}, {'layer': 0, 'body': 'error', 'tearDown': 'error'}]
     elif ending == 'hook_raise':
@@ -71,6 +75,8 @@ def mk(subset, ending, meddle=False):
     elif ending == 'stop':
         opts += ['-x']
         tests += [{'layer': 0, 'body': 'fail'}, {'layer': 0}]
+    if world.get('redirect_last'):
+        tests.append({'layer': 0, 'subs': ['fail'], 'redirect_sub': True})
     world['tests'] = tests
     world['options'] = opts
     world['subset'] = sorted(subset)
